@@ -17,7 +17,8 @@ Pool == { Doc(9, "RO1", "roCreate"), Doc(1000, "RO1", "roCreate"),
           Doc(10, "RO1", "ok"), Doc(100, "RO1", "warn"), Doc(11, "RO1", "fail"),
           Doc(101, "RO1", "roDelete"), Doc(8, "RO1", "roDelete"), Doc(99, "RO1 ", "ok"),             \* another running order: the id differs by a trailing blank only
           Doc(12, "RO1", "roReplace"),       \* a roReplace is a message, not a second roCreate
-          Doc(13, "RO1", "warn2") }          \* merges with two warnings of the same kind
+          Doc(13, "RO1", "warn2"),           \* merges with two warnings of the same kind
+          Doc(7, "RO1", "roCreateDone") }    \* a roCreate that is already completed: still needs its roDelete to be "complete"
 
 (* every injective sequence over the pool, length 0..MaxDocs               *)
 ShortLists == UNION { { s \in [1..n -> Pool] : \A a, b \in 1..n : a # b => s[a] # s[b] } : n \in 0..MaxDocs }
@@ -25,7 +26,8 @@ ShortLists == UNION { { s \in [1..n -> Pool] : \A a, b \in 1..n : a # b => s[a] 
 (* every subset of LongLen..LongMax documents that holds the roCreate 9    *)
 Ascending(S) == SortByMid(SetToSeq(S))
 LongSets == { S \in SUBSET Pool : Cardinality(S) \in (MaxDocs+1)..LongMax /\ Doc(9, "RO1", "roCreate") \in S
-                                  /\ Doc(1000, "RO1", "roCreate") \notin S /\ Doc(99, "RO1 ", "ok") \notin S }
+                                  /\ Doc(1000, "RO1", "roCreate") \notin S /\ Doc(99, "RO1 ", "ok") \notin S
+                                  /\ Doc(7, "RO1", "roCreateDone") \notin S }
 LongLists == { Ascending(S) : S \in LongSets } \cup { Reverse(Ascending(S)) : S \in LongSets }
 (* bulk collections: two-digit and larger message counts (a roCreate, n-2   *)
 (* messages of which every 7th fails and every 11th warns, a roDelete),    *)
@@ -51,11 +53,13 @@ Construct ==
   /\ pc = "new"
   /\ IF Accepts(supplied, allow)
      THEN /\ readers' = Readers(supplied)
+          /\ completed' = StartsCompleted(supplied)
           /\ pc' = "accepted"
      ELSE /\ readers' = <<>>
+          /\ completed' = FALSE
           /\ pc' = "invalid"
   /\ i' = 1
-  /\ UNCHANGED <<supplied, allow, strict, completed, nwarn, applied>>
+  /\ UNCHANGED <<supplied, allow, strict, nwarn, applied>>
 
 StartMerge ==
   /\ pc = "accepted"
